@@ -48,6 +48,7 @@ def check(run):
     depends_on(run, "C12", {"TYPESTATE", "NOMUT"})
     depends_on(run, "C06", {"MERGE", "KEYS", "COUNT"})
     depends_on(run, "C17", {"ORDER", "PROPAGATE"})
+    depends_on(run, "C03", {"NEW", "C0"})
 
 
 _I = "ixai/explainer/sage/incremental.py"
